@@ -1324,6 +1324,8 @@ def install():
     M["std::vec::Vec::<T, A>::as_slice"] = interp.m_identity
     M["std::vec::Vec::<T, A>::as_mut_slice"] = interp.m_identity
     M["core::slice::<impl [T]>::into_vec"] = interp.m_identity
+    M["std::slice::<impl [T]>::into_vec"] = interp.m_identity
+    M["alloc::slice::<impl [T]>::into_vec"] = interp.m_identity
     M["<std::boxed::Box<T, A> as std::ops::Deref>::deref"] = m_box_deref
     M["<std::boxed::Box<T, A> as std::ops::DerefMut>::deref_mut"] = m_box_deref
     M["<std::borrow::Cow<'_, B> as std::ops::Deref>::deref"] = m_cow_deref
